@@ -6,6 +6,24 @@ HERE = os.path.dirname(os.path.dirname(os.path.abspath(__file__)))
 
 # property id -> (technique, level text, level note, design ref)
 CLAIMED = {
+    "C07": (
+        "proptest-driven tape generation of outputs and configurations + bounded-exhaustive width-border / address-length sweeps + builder scenarios, with the (160 + size) x coins_per_byte bound evaluated on the emitted bytes",
+        "Generated-input search: outputs (every address kind and length incl. long Byron and malformed, coin widths, bundles, datum hash / inline datum, script reference) and configurations (coins per byte in width classes and aimed at the 256 / 65536 / 2^32 borders of cpb x (160 + size), max value size, max tx size) go through min_ada_for_output / MinOutputAdaCalculator, add_output, add_mint_asset_and_output, the output builder's min-coin helper and full builder scenarios (change, collateral return, minted-asset outputs); each emitted output is re-read with the engine's CBOR reader and must satisfy coin >= cpb x (160 + size), the returned minimum must not exceed the bound at the 8-byte coin, every emitted value must fit max_value_size and every built transaction max_tx_size. An exhaustive sweep (cpb 1..=700 x 12 shapes x padded bundles x 6 start coins; 110 addresses x 6 feature sets x 3 cpb) covers the fixed-point borders. Exploration is the right level: the function is a fixed point over its own encoded width, cheap to evaluate, and its failures sit on width borders the generators aim at.",
+        "Trusts the engine's CBOR reader for size and coin; u128 arithmetic. Known finding: the output builder's helper sizes with a 57-byte placeholder address (known_findings.json).",
+        "DESIGN.md \u00a75 C07",
+    ),
+    "C19": (
+        "proptest-driven collateral histories (tape-decoded operation sequences over the three helper routes and the raw setters) + whole-value conservation oracle on the emitted body",
+        "Generated-input search over histories: configuration, 0-4 collateral inputs (pure ADA and asset-carrying, width-class amounts), fee requests, 0-3 earlier operations (raw setters, removals, replacing the collateral set, change, any helper), then the route under test (explicit return, explicit total, percentage helper), optionally balancing afterwards. The built body is parsed with the engine's CBOR reader; with C the 128-bit sum of the scenario's own values of the outpoints under key 13: C = return + total as whole values (total pure lovelace, every asset of C and nothing else in the return), return coin >= cpb x (160 + size), percentage route total >= ceil(fee x pct / 100), and after Err neither key 16 nor key 17 is present. Exploration is the right level: three independently settable fields over unbounded histories cannot be enumerated.",
+        "Trusts the engine's CBOR reader and the scenario's own outpoint -> value map. Precondition: raw setters / collateral replacement happen only before the helper under test (the helper then owns both fields).",
+        "DESIGN.md \u00a75 C19",
+    ),
+    "C20": (
+        "bounded-exhaustive single-item / ordered-pair tables at CBOR width and 2^64 boundaries + proptest-driven certificate / withdrawal / proposal sequences against the engine's Conway deposit table in exact integers",
+        "Generated-input search: bodies with certificate sequences over all 19 wire kinds (explicit and parameter-based amounts, key and script credentials), withdrawal maps and proposal lists, pool/key deposit parameters in width classes, sums steered to 2^64-1+d. The stand-alone get_deposit / get_implicit_input and the builder's get_deposit / get_implicit_input / get_explicit_input-side figures must equal the engine's table evaluated in unbounded integers (kinds and coins read from the emitted CBOR, not from getters), and must be Err exactly when the exact total exceeds 2^64-1; helper and builder must agree. Every single item and every ordered pair of item kinds is enumerated at boundary amounts. Exploration is the right level: cheap pure functions, failures sit at kind pairs and overflow edges the tables enumerate.",
+        "Trusts the engine's transcription of the Conway deposit / refund table (DESIGN 3.3) and its CBOR reader; every pool registration counts as a first registration, as the property fixes.",
+        "DESIGN.md \u00a75 C20",
+    ),
     "C05": (
         "proptest-driven builder scenarios + independent per-asset preservation-of-value oracle on the emitted bytes",
         "Generated builder scenarios (tape-decoded parameters, keyring, UTxO universe the scenario owns, operation sequence through every public route incl. certificates, withdrawals, mint/burn, votes, proposals, collateral, fee requests, the 7 balancing routes) are applied to the real TransactionBuilder; the emitted transaction is parsed by the engine's own CBOR reader and judged by the engine's ledger oracle, which never asks the library for a sum, size, deposit, fee or hash. For every transaction produced (build_tx, build, build_tx_unsafe) after a balancing call reported success, inputs + withdrawals + refunds + mint = outputs + fee + deposits + burn + donation must hold exactly for lovelace and every asset, with UTxO values taken from the scenario's own map.",
